@@ -41,7 +41,7 @@ fn civil_index(ctx: &Ctx, sink: &mut Sink) {
   let mut rng = ctx.rng(2001);
   let years: Vec<i64> = if ctx.quick() {
     let mut v: Vec<i64> = vec![1, 1932, 1933, 1940, 1941, 1949, 1950, 1978, 1979, 1984, 1985, 2024, 9998];
-    for _ in 0..120 {
+    for _ in 0..900 {
       v.push(rng.range(1, 9998));
     }
     v
@@ -82,10 +82,10 @@ fn lunar(ctx: &Ctx, sink: &mut Sink) {
   let years: Vec<i64> = if ctx.quick() {
     // 1536, 1574, 3358, 9962: the lunar year ends with a leap 12th month (New Year's Eve is in month -12); 2033: leap 11th
     let mut v: Vec<i64> = vec![1, 2, 1536, 1574, 1900, 1984, 2001, 2012, 2020, 2023, 2024, 2033, 2100, 3358, 9962, 9997, 9998];
-    for _ in 0..25 {
+    for _ in 0..60 {
       v.push(rng.range(1900, 2100));
     }
-    for _ in 0..25 {
+    for _ in 0..120 {
       v.push(rng.range(245, 9997));
     }
     v
